@@ -1,5 +1,7 @@
 """setup: everything is interpreted/generated at check time; setup only verifies the tool chain."""
+import os
 import shutil
+import subprocess
 import sys
 
 
@@ -7,6 +9,11 @@ def main():
     missing = [t for t in ('cbmc', 'goto-cc', 'goto-instrument', 'z3', 'cvc5', 'g++', 'python3') if not shutil.which(t)]
     if missing:
         print('missing tools: ' + ', '.join(missing))
+        return 1
+    w = os.path.join(os.path.dirname(os.path.dirname(os.path.abspath(__file__))), 'replay', 'limits_witness.cpp')
+    r = subprocess.run(['g++', '-std=c++17', '-fsyntax-only', w], capture_output=True, text=True)
+    if r.returncode != 0:
+        print('stand-in <limits> disagrees with the platform header:\n' + r.stderr[-800:])
         return 1
     print('cv setup: tool chain present (nothing to build; contracts and harnesses are generated per run)')
     return 0
